@@ -31,7 +31,7 @@ MODELLED = ('element_cached.py: find_odf_idx, make_cache_map, set/insert/delete_
 
 
 def run(tier, seed, replay=None):
-    return tr.run_table_check('C01', tier, seed, replay, 'chk01', LAYERS, SOFT, tl.OPS_CORE, trusted=TRUSTED, modelled=MODELLED,
+    return tr.run_table_check('C01', tier, seed, replay, 'chk01', LAYERS, SOFT, tl.OPS_CORE, trusted=TRUSTED, modelled=MODELLED, extra_targets=('Tablechk',),
                               assumptions=['operations carry repeats >= 1 and integer coordinates of either sign',
                                            'tables consist of table:table-column elements followed by table:table-row elements'])
 
